@@ -42,6 +42,8 @@ INVARIANT MetricKept
 INVARIANT SameLattice
 INVARIANT HklCanonical
 INVARIANT HklLexMax
+INVARIANT HklKeyMax
+INVARIANT KeyFits32
 INVARIANT HklNormKept
 INVARIANT ListColumnwise
 INVARIANT ListPositionFree
